@@ -339,8 +339,19 @@ func (r *RegionScatterer) selectCandidates(region *core.RegionInfo, sourceStoreI
 		log.Error("failed to get the store", zap.Uint64("store-id", sourceStoreID), errs.ZapError(errs.ErrGetSourceStore))
 		return nil
 	}
+	// A store that holds another peer of this region is not a candidate either: that peer may
+	// have to stay where it is, and the two peers would end up on one store (a replica is lost).
+	excludedStores := make(map[uint64]struct{}, len(selectedStores)+len(region.GetPeers()))
+	for id := range selectedStores {
+		excludedStores[id] = struct{}{}
+	}
+	for _, peer := range region.GetPeers() {
+		if peer.GetStoreId() != sourceStoreID {
+			excludedStores[peer.GetStoreId()] = struct{}{}
+		}
+	}
 	filters := []filter.Filter{
-		filter.NewExcludedFilter(r.name, nil, selectedStores),
+		filter.NewExcludedFilter(r.name, nil, excludedStores),
 	}
 	scoreGuard := filter.NewPlacementSafeguard(r.name, r.cluster, region, sourceStore)
 	filters = append(filters, context.filters...)
